@@ -231,7 +231,10 @@ Step(kind, w, o, w2, r) ==
           \* then holds j's items (the caller shares the item OBJECTS), j is untouched - and stays
           \* untouched by whatever is done to i afterwards (OthersSame on the following calls)
           \* the block's own list, a generator over it, reversed(reversed(...)): "installs exactly that list"
-          [] o.op = "assign_self" -> If(~r.ok \/ b # a, "C16:self_assignment_changed_tracks")
+          \* (platform calibration: the (channel, platform) pairs read from the block, lazily, assigned back:
+          \* every one of those explicit channels is honoured - the block is what it was)
+          [] o.op = "assign_self" -> If(~r.ok \/ b # a, IF kind = "FPCal" THEN "C15:explicit_channel_not_honoured"
+                                                       ELSE "C16:self_assignment_changed_tracks")
           [] o.op = "assign_from" /\ ~o.compat -> If(r.ok \/ b # a, "C16:wrong_length_assign_accepted")
           [] o.op = "assign_from" -> If(~r.ok \/ Len(b.items) # Len(w[o.j].items)
                                          \/ (Len(b.items) = Len(w[o.j].items) /\ \E k \in 1..Len(b.items) :
